@@ -99,6 +99,15 @@ def sentOp (preds : List Predictor) (models : List WModel) (s : Sentence) (op : 
     let k ← k.toNat?
     let m ← models[k]?
     some (s, "Z" ++ joinWith "." ((specScores m s.text).map toString))
+  | ["tspec", k] => do
+    let k ← k.toNat?
+    let m ← models[k]?
+    let items := (specTokens s.bounds).map fun (st, en) =>
+      let scores := match tagModelOf m ((s.text.drop st).take (en - st)) with
+        | some tm => specTagScores tm s.text (en - 1)
+        | none => []
+      s!"{en}={joinWith "+" ((specTokenTags m s.text st en).map showTag)}={joinWith ":" (scores.map toString)}"
+    some (s, "X" ++ joinWith "." items)
   | ["reset", k] => k.toNat?.map fun k => (s.resetTags k, "ok")
   | ["setbs", ls] =>
     (parseLabels ls).bind fun bs =>
